@@ -44,13 +44,15 @@ DKeys(ev) == Join(SelectSeq(<<"popt", "xopt", "dl", "subdl", "subpopt", "subflag
 \* ---- circumstances recorded along the history (they qualify the signature of a deviation) ---------------
 \* eq-subdl : a `configure -Dsub:default_library=v` gave the value the subproject inherited anyway
 \* own-sp   : a `configure -Dsub:popt=v` gave the value stored in the (yielding) subproject option itself
+\* unset-flag : `configure -Usub:flag` while sub:flag is true (and the parent's flag is false)
 \* stale-x  : xopt was given on a command line and later removed from the option file
 \* parent-replaced : the choices of the top-level popt changed while the subproject's popt was yielding to it
 \*            (until the next --wipe)
 Taints(T, p, sown, ev) ==
-    (IF ev.a = "Wipe" THEN T \ {"parent-replaced"} ELSE T)
+    (IF ev.a = "Wipe" THEN T \ {"parent-replaced", "unset-flag"} ELSE T \ {"unset-flag"})
       \cup (IF ev.a = "Configure" /\ "subdl" \in DOMAIN ev.D /\ p[2].subdl = None /\ ev.D["subdl"] = p[2].dl THEN {"eq-subdl"} ELSE {})
       \cup (IF ev.a = "Configure" /\ "subpopt" \in DOMAIN ev.D /\ p[2].sp = None /\ ev.D["subpopt"] = sown THEN {"own-sp"} ELSE {})
+      \cup (IF ev.a = "ConfigureU" /\ ev.k = "subflag" /\ p[2].sf = "true" THEN {"unset-flag"} ELSE {})
       \cup (IF p[2].exists /\ p[2].cmd["xopt"] # None /\ ~p[1].x THEN {"stale-x"} ELSE {})
       \cup (IF p[2].exists /\ ev.a \in {"Configure", "ConfigureU", "Reconfigure"} /\ p[1].ch # p[2].ch THEN {"parent-replaced"} ELSE {})
 \* only the circumstances that concern the deviating fields / the failing command qualify a signature
@@ -59,7 +61,7 @@ Relevant(T, ev, fields, failed) ==
                \/ t = "parent-replaced" /\ "sp" \in Range(fields)
                \/ t = "eq-subdl" /\ ("subdl" \in Range(fields) \/ (failed /\ ev.a = "ConfigureU" /\ ev.k = "subdl"))
                \/ t = "stale-x" /\ ("x" \in Range(fields) \/ (failed /\ ev.a \in {"Reconfigure", "Wipe"}))}
-TaintSig(T) == IF T = {} THEN "" ELSE "[" \o Join(SelectSeq(<<"eq-subdl", "own-sp", "parent-replaced", "stale-x">>, LAMBDA t : t \in T)) \o "]"
+TaintSig(T) == IF T = {} THEN "" ELSE "[" \o Join(SelectSeq(<<"eq-subdl", "own-sp", "parent-replaced", "stale-x", "unset-flag">>, LAMBDA t : t \in T)) \o "]"
 
 Verdict(c, clause, sig, n, expected, got) == [id |-> c.id, clause |-> clause, sig |-> sig, step |-> n, expected |-> expected, got |-> got]
 OkVerdict(c) == Verdict(c, "ok", "", 0, <<>>, <<>>)
@@ -85,7 +87,7 @@ JudgeFrom(c, S, T, sown, n) ==
             ELSE LET keep == {p \in cand : Proj(p[2]) = ObsProj(x.obs)} IN
                  IF keep = {}
                  THEN LET fields == DiffFields(anyc, x.obs)
-                          now == (T1 \ T) \cap {"eq-subdl", "own-sp"}
+                          now == (T1 \ T) \cap {"eq-subdl", "own-sp", "unset-flag"}
                           nothing == \E p \in S : Proj(p[2]) = ObsProj(x.obs)
                           rel == Relevant(T1, ev, fields, FALSE)
                       IN
